@@ -24,8 +24,8 @@ NAMES = ['step started', 'step ended', 'event consumed', 'event sent', 'state ex
 LEVELS = {
     'quick': [
         {'name': 'L1-N3-M1-K2', 'N': 3, 'M': 1, 'K': 2, 'budget_s': 60},
-        {'name': 'L2-N3-M2-K1', 'N': 3, 'M': 2, 'K': 1, 'budget_s': 90},
-        {'name': 'L3-N4-M1-K1', 'N': 4, 'M': 1, 'K': 1, 'budget_s': 90},
+        {'name': 'L2-N3-M2-K1-bco', 'N': 3, 'M': 2, 'K': 1, 'kinds': 'bco', 'budget_s': 90},
+        {'name': 'L3-N4-M1-K1-bco', 'N': 4, 'M': 1, 'K': 1, 'kinds': 'bco', 'budget_s': 90},
     ],
     'thorough': [
         {'name': 'L1-N3-M2-K2', 'N': 3, 'M': 2, 'K': 2, 'budget_s': 1200},
@@ -45,7 +45,8 @@ OUTSIDE = ['charts above the bounds of the completed level', 'property statechar
 
 
 def shards(level):
-    return cg.split_shards(cg.skeletons(level['N'], KINDS), level['M'], nevents=1)
+    kinds = KINDS[:3] if level.get('kinds') == 'bco' else KINDS
+    return cg.split_shards(cg.skeletons(level['N'], kinds), level['M'], nevents=1)
 
 
 def expand(job, level):
